@@ -353,7 +353,7 @@ func (e *handlerStore[T]) off(handler ...T) {
 		for _, h := range slice {
 			remove := false
 			for _, _h := range handler {
-				if h == _h {
+				if sameHandler(h, _h) {
 					remove = true
 					break
 				}
@@ -367,6 +367,24 @@ func (e *handlerStore[T]) off(handler ...T) {
 
 	e.funcs = filter(e.funcs)
 	e.funcsOnce = filter(e.funcsOnce)
+}
+
+// Handlers are stored as pointers to function values. An Off method gets a function value, not the
+// pointer an On method stored: two handlers are the same when they point to the same function
+// (as it is for event handlers, see eventHandlerStore.off). Go offers no finer identity of functions.
+func sameHandler[T comparable](a, b T) bool {
+	if a == b {
+		return true
+	}
+	ra, rb := reflect.ValueOf(a), reflect.ValueOf(b)
+	if ra.Kind() != reflect.Ptr || rb.Kind() != reflect.Ptr || ra.IsNil() || rb.IsNil() {
+		return false
+	}
+	fa, fb := ra.Elem(), rb.Elem()
+	if fa.Kind() != reflect.Func || fb.Kind() != reflect.Func || fa.IsNil() || fb.IsNil() {
+		return false
+	}
+	return fa.Pointer() == fb.Pointer()
 }
 
 func (e *handlerStore[T]) offAll() {
